@@ -107,7 +107,11 @@ where
             assert!(lo == it.len() && hi == Some(lo));
             tr.push(list(vec![l(&K::unidx(&f.table)), n(it.len())]));
         }
-        assert!(it.next().is_none());
+        // exhausted: it stays exhausted and keeps reporting that nothing is left
+        for _ in 0..2 {
+            assert!(it.next().is_none());
+            assert!(it.len() == 0 && it.size_hint() == (0, Some(0)));
+        }
         assert!(tr.len() == before);
         ok(list(tr))
     }
@@ -119,6 +123,10 @@ where
             let (lo, hi) = it.size_hint();
             assert!(lo == it.len() && hi == Some(lo));
             tr.push(list(vec![l(&K::unarr(&f.0)), n(it.len())]));
+        }
+        for _ in 0..2 {
+            assert!(it.next().is_none());
+            assert!(it.len() == 0 && it.size_hint() == (0, Some(0)));
         }
         assert!(tr.len() == before);
         ok(list(tr))
